@@ -881,6 +881,36 @@ func (t *Task) RunUntilParked(points ...string) string {
 	}
 }
 
+// WaitRelease waits for a release round. A release round that was started
+// while blocks awaited release may find, once it gets to run, that another
+// state writer has meanwhile written them back: it then parks on the fresh
+// wake-up channel like the production loop does. WaitRelease therefore also
+// returns when nothing awaits release any more (the goroutine stays parked
+// and will serve the next release, as in production).
+func (t *Task) WaitRelease() {
+	idle := 0
+	for spin := 0; !t.Finished(); spin++ {
+		if d, ok := t.s.M.Clock.NextFire(); ok {
+			t.s.M.Clock.Advance(d)
+			idle = 0
+			continue
+		}
+		if !t.s.ReleasePending() {
+			idle++
+			if idle > 50 {
+				return
+			}
+		} else {
+			idle = 0
+		}
+		if spin%16 == 15 {
+			time.Sleep(20 * time.Microsecond)
+		} else {
+			yield()
+		}
+	}
+}
+
 // Wait runs the task to completion (all gates must be open).
 func (t *Task) Wait() { t.RunUntilParked() }
 
@@ -921,7 +951,7 @@ func (s *Store) StartReleaseRound() *Task {
 // PumpRelease processes pending block releases to completion (gates open).
 func (s *Store) PumpRelease() {
 	for i := 0; i < 8 && s.PBL != nil && s.ReleasePending(); i++ {
-		s.StartReleaseRound().Wait()
+		s.StartReleaseRound().WaitRelease()
 	}
 }
 
